@@ -34,10 +34,11 @@ def text_space(n, thin=1):
     """storage faults on a text file of n bytes (deterministic order); thin > 1 strides the per-byte faults of big fixtures"""
     for off in range(0, n, thin):
         yield ('flip', off, 0)
+    for off in range(1, n, 3 * thin):
         yield ('flip', off, 4)
-    for off in range(0, n, 2 * thin):
+    for off in range(0, n, 8 * thin):
         yield ('trunc', off)
-    for off in range(0, n, 16):
+    for off in range(0, n, 32):
         yield ('zero', off, 8)
         yield ('ff', off, 8)
     for off in range(0, n, 64):
@@ -85,21 +86,70 @@ def elf_space(body):
     seen = set()
     for name, off, size in elf_regions(body):
         dense = name in ('ehdr', 'shdrs', 'phdrs', '.dynsym', '.symtab', '.hash', '.gnu.hash', '.gnu.version', '.gnu.version_r', '.gnu.version_d', '.dynamic')
-        step = 1 if dense else 2
+        semi = name in ('shdrs', 'phdrs', '.symtab', '.dynamic')      # big tables of wide fields: every other byte
+        step = 2 if semi else 1 if dense else 4
         for o in range(off, min(off + size, n), step):
             if o in seen:
                 continue
             seen.add(o)
             yield ('flip', o, 0)
             yield ('set', o, 0xff)
-            if dense:
+            if dense and o % (4 if semi else 2) == 0:
                 yield ('set', o, 0)
-    for off in range(0, n, 64):
+    for off in range(0, n, 128):
         yield ('trunc', off)
         yield ('zero', off, 64)
     for off in range(0, n, 512):
         yield ('zero', off, 512)
         yield ('misdir', off, 512, (off * 5 + 4096) % max(n, 1))
+
+
+_cls_cache = {}
+_reg_cache = {}
+
+
+def elf_weight(name, body, f):
+    """3 for a byte fault inside a table libabigail walks itself (symbol, hash, version, dynamic sections, headers), 1 otherwise"""
+    if f[0] not in ('flip', 'set'):
+        return 1
+    k = hash(body)
+    if k not in _reg_cache:
+        _reg_cache[k] = [(off, off + size) for n, off, size in elf_regions(body)
+                         if n in ('ehdr', 'shdrs', '.dynsym', '.symtab', '.hash', '.gnu.hash', '.gnu.version', '.gnu.version_r', '.gnu.version_d', '.dynamic')]
+    return 3 if any(a <= f[1] < b for a, b in _reg_cache[k]) else 1
+
+
+def text_classes(body):
+    """per byte of an XML / INI text: 3 inside a quoted value, 2 markup or delimiter, 1 anything else (cached)"""
+    k = hash(body)
+    if k not in _cls_cache:
+        out = bytearray(len(body))
+        q = 0
+        for i, ch in enumerate(body):
+            if q:
+                if ch == q:
+                    q = 0
+                    out[i] = 2
+                else:
+                    out[i] = 3
+            elif ch in (0x27, 0x22):
+                q = ch
+                out[i] = 2
+            elif ch in b'<>/=[]{},':
+                out[i] = 2
+            elif ch in b' \t\r\n':
+                out[i] = 1
+            else:
+                out[i] = 2
+        _cls_cache[k] = bytes(out)
+    return _cls_cache[k]
+
+
+def text_weight(name, body, f):
+    if f[0] in ('trunc',):
+        return 1
+    c = text_classes(body)
+    return {3: 4, 2: 2}.get(c[f[1]] if f[1] < len(c) else 1, 1)
 
 
 def fkey(f):
@@ -229,9 +279,24 @@ def make_plans(chk, ctx, tier, items):
     if tier == 'thorough':
         sel = allp
     else:
+        # seeded sample of the closed space, biased (not restricted) to the places where a storage fault changes what the
+        # reader is asked to interpret: attribute values and markup of a document, the dense tables of an ELF file
         n = chk.QUICK_N
         rng = C.Prng(C.mix_seed(ctx.seed, chk.NUM, 0, 0))
-        idx = sorted(set(rng.below(len(allp)) for _ in range(n)))
+        wfn = getattr(chk, 'weight', None)
+        if wfn:
+            cum, tot = [], 0
+            wcache = {}
+            for (name, cmd, f) in allp:
+                k = (name, f[0], f[1])
+                if k not in wcache:
+                    wcache[k] = max(1, int(wfn(name, items[name]['body'], f)))
+                tot += wcache[k]
+                cum.append(tot)
+            import bisect
+            idx = sorted(set(bisect.bisect_right(cum, rng.below(tot)) for _ in range(n)))
+        else:
+            idx = sorted(set(rng.below(len(allp)) for _ in range(n)))
         sel = [allp[i] for i in idx]
     plans = []
     for j, (name, cmd, f) in enumerate(sel):
@@ -302,23 +367,47 @@ def describe(chk, ctx, cov, items, plans, results):
 
 
 def discover(chk, tier='thorough', limit=None):
-    """development aid: run the space and print every signature with one example (never part of a registered command)"""
+    """development aid: run the space and list every signature with one example (never part of a registered command).
+    Resumable: every executed point is appended to build/discover-<id>.jsonl; a restart skips the points already there
+    (the plan list is a pure function of the fixtures and the code of this module)."""
+    import hashlib
     ctx = F.Ctx(chk, tier)
     try:
         items = chk.make_items(ctx)
         plans = chk.make_plans(ctx, tier, items)
         if limit:
             plans = plans[::max(1, len(plans) // limit)]
-        res = C.pmap(lambda pl: chk.execute(ctx, items[pl['item']], pl['params']), plans, 2)
-        sigs = {}
-        for pl, r in zip(plans, res):
-            if r.verdict:
-                e = sigs.setdefault(r.key, {'count': 0, 'example': {'item': pl['item'], 'params': pl['params']}, 'details': r.verdict[1], 'stderr': r.info.get('stderr_tail')})
+        ident = hashlib.sha1(json.dumps(plans, sort_keys=True).encode()).hexdigest()[:12]
+        log = os.path.join(C.BUILD, 'discover-%s-%s.jsonl' % (chk.PROP, ident))
+        done = {}
+        if os.path.exists(log):
+            for l in open(log):
+                try:
+                    r = json.loads(l)
+                    done[r['i']] = r
+                except ValueError:
+                    pass
+        todo = [i for i in range(len(plans)) if i not in done]
+        print('%s: %d points, %d already done, log %s' % (chk.PROP, len(plans), len(done), log), flush=True)
+        jobs = int(os.environ.get('VERIF_DISCOVER_JOBS', '2'))
+        with open(log, 'a') as out:
+            for a in range(0, len(todo), 400):
+                chunk = todo[a:a + 400]
+                res = C.pmap(lambda i: chk.execute(ctx, items[plans[i]['item']], plans[i]['params']), chunk, jobs)
+                for i, r in zip(chunk, res):
+                    rec = {'i': i, 'outcome': r.outcome, 'key': r.key if r.verdict else None,
+                           'details': r.verdict[1] if r.verdict else None, 'stderr': r.info.get('stderr_tail') if r.verdict else None}
+                    done[i] = rec
+                    out.write(json.dumps(rec) + '\n')
+                out.flush()
+                print('  %d / %d' % (len(done), len(plans)), flush=True)
+        sigs, outcomes = {}, {}
+        for i in sorted(done):
+            r = done[i]
+            outcomes[r['outcome']] = outcomes.get(r['outcome'], 0) + 1
+            if r['key']:
+                e = sigs.setdefault(r['key'], {'count': 0, 'example': {'item': plans[i]['item'], 'params': plans[i]['params']}, 'details': r['details'], 'stderr': r['stderr']})
                 e['count'] += 1
-        out = {'runs': len(plans), 'space': ctx.memo.get('space_size'), 'signatures': sigs,
-               'outcomes': {}}
-        for r in res:
-            out['outcomes'][r.outcome] = out['outcomes'].get(r.outcome, 0) + 1
-        return out
+        return {'runs': len(done), 'space': ctx.memo.get('space_size'), 'signatures': sigs, 'outcomes': outcomes}
     finally:
         ctx.close()
